@@ -76,6 +76,21 @@ Theorem C13_scanner_new_slots :
     sym_lookup name (i_symmap (sc_inner s)) = Some k /\ nth_error (sc_syms s) k = Some v.
 Proof. exact (@scanner_new_slots). Qed.
 
+(* ---- the other two mutators touch their own field only (module data: their own module only) *)
+Theorem C13_set_module_data_one_module :
+  forall (compiled params udata : Type) (s : scanner compiled params udata) k d,
+    let s' := set_module_data s k d in
+    md_get k (sc_mdata s') = Some d
+    /\ (forall k', k' <> k -> md_get k' (sc_mdata s') = md_get k' (sc_mdata s))
+    /\ sc_params s' = sc_params s /\ sc_syms s' = sc_syms s /\ sc_inner s' = sc_inner s.
+Proof. exact (@set_module_data_effect). Qed.
+
+Theorem C13_set_scan_params_only_params :
+  forall (compiled params udata : Type) (s : scanner compiled params udata) p,
+    let s' := set_scan_params s p in
+    sc_params s' = p /\ sc_mdata s' = sc_mdata s /\ sc_syms s' = sc_syms s /\ sc_inner s' = sc_inner s.
+Proof. exact (@set_scan_params_effect). Qed.
+
 (* ---- define_symbol is typed *)
 Theorem C13_define_symbol_typed :
   forall (compiled params udata : Type) (s : scanner compiled params udata) name v,
@@ -160,51 +175,69 @@ Theorem C13_cache_shared_between_scans_refuted :
 Proof. exact shared_cache_refuted. Qed.
 
 (* ---- interleaving *)
-Section Interleaving.
-  Variable inner job pstate pool result : Type.
-  Variable init : inner -> job -> pstate.
-  Variable step : inner -> pool -> pstate -> pool * (pstate + result).
-  (* regex-automata's contract for its caches (DfaValidator.pool, meta::Regex pools): scratch space whose
-     content never changes what a search returns *)
-  Hypothesis pool_irrelevant : forall i p1 p2 s, snd (step i p1 s) = snd (step i p2 s).
-
-  Theorem C13_interleaving :
+(* `pool_content_irrelevant` (Model/Interleave.v) is the contract of regex-automata's caches (DfaValidator.pool, the pools inside meta::Regex):
+   scratch space whose content never changes what a search returns.  It is a premise of each statement. *)
+Theorem C13_interleaving :
+  forall (inner job pstate pool result : Type) (init : inner -> job -> pstate)
+         (step : inner -> pool -> pstate -> pool * (pstate + result)),
+    pool_content_irrelevant step ->
     forall (i : inner) (jobs : list job) (p0 p1 : pool) (sched : list nat) t j,
       nth_error jobs t = Some j ->
       nth_error (sy_threads (exec step i (start init i p0 jobs) sched)) t
       = Some (alone step i (count_occ Nat.eq_dec sched t) p1 (Running (init i j))).
-  Proof. exact (interleaving inner job pstate pool result init step pool_irrelevant). Qed.
+Proof. exact interleaving. Qed.
 
-  Theorem C13_interleaving_result :
+Theorem C13_interleaving_result :
+  forall (inner job pstate pool result : Type) (init : inner -> job -> pstate)
+         (step : inner -> pool -> pstate -> pool * (pstate + result)),
+    pool_content_irrelevant step ->
     forall (i : inner) (jobs : list job) (p0 : pool) (sched : list nat) t j r,
       nth_error jobs t = Some j ->
       nth_error (sy_threads (exec step i (start init i p0 jobs) sched)) t = Some (Done r) ->
       exists n p, alone step i n p (Running (init i j)) = Done r.
-  Proof. exact (interleaving_result inner job pstate pool result init step pool_irrelevant). Qed.
+Proof. exact interleaving_result. Qed.
 
-  Theorem C13_schedule_independent :
+Theorem C13_schedule_independent :
+  forall (inner job pstate pool result : Type) (init : inner -> job -> pstate)
+         (step : inner -> pool -> pstate -> pool * (pstate + result)),
+    pool_content_irrelevant step ->
     forall (i : inner) (jobs : list job) (p0 p0' : pool) (sched sched' : list nat) t r r',
       nth_error (sy_threads (exec step i (start init i p0 jobs) sched)) t = Some (Done r) ->
       nth_error (sy_threads (exec step i (start init i p0' jobs) sched')) t = Some (Done r') ->
       r = r'.
-  Proof. exact (schedule_independent inner job pstate pool result init step pool_irrelevant). Qed.
+Proof. exact schedule_independent. Qed.
 
-  Theorem C13_interleaving_complete :
+Theorem C13_interleaving_complete :
+  forall (inner job pstate pool result : Type) (init : inner -> job -> pstate)
+         (step : inner -> pool -> pstate -> pool * (pstate + result)),
+    pool_content_irrelevant step ->
     forall (i : inner) (jobs : list job) (p0 : pool) (sched : list nat) t j r n p,
       nth_error jobs t = Some j -> alone step i n p (Running (init i j)) = Done r ->
       n <= count_occ Nat.eq_dec sched t ->
       nth_error (sy_threads (exec step i (start init i p0 jobs) sched)) t = Some (Done r).
-  Proof. exact (interleaving_complete inner job pstate pool result init step pool_irrelevant). Qed.
+Proof. exact interleaving_complete. Qed.
 
-  (* workers with queues of jobs (one scan after the other on the same thread) *)
-  Theorem C13_worker_queues :
+(* the sequential oracle is the schedule "job 0 to its end, then job 1, ..." *)
+Theorem C13_sequential_oracle_is_a_schedule :
+  forall (inner job pstate pool result : Type) (init : inner -> job -> pstate)
+         (step : inner -> pool -> pstate -> pool * (pstate + result)),
+    pool_content_irrelevant step ->
+    forall (i : inner) (jobs : list job) (p0 : pool) (fuels : list nat) t j r p,
+      nth_error jobs t = Some j -> alone step i (nth t fuels 0) p (Running (init i j)) = Done r ->
+      nth_error (sy_threads (exec step i (start init i p0 jobs) (seq_schedule 0 fuels))) t = Some (Done r).
+Proof. exact sequential_schedule. Qed.
+
+(* workers with queues of jobs (one scan after the other on the same thread) *)
+Theorem C13_worker_queues :
+  forall (inner job pstate pool result : Type) (init : inner -> job -> pstate)
+         (step : inner -> pool -> pstate -> pool * (pstate + result)),
+    pool_content_irrelevant step ->
     forall (i : inner) (queues : list (list job)) (p0 : pool) (sched : list nat) t js rs,
       nth_error queues t = Some js ->
       nth_error (sy_threads (exec (qstep init step) i (start (@qinit inner job pstate result) i p0 queues) sched)) t
         = Some (Done rs) ->
       Forall2 (fun j r => exists n p, alone step i n p (Running (init i j)) = Done r) js rs.
-  Proof. exact (worker_queues inner job pstate pool result init step pool_irrelevant). Qed.
-End Interleaving.
+Proof. exact worker_queues. Qed.
 
 (* instance: interleaved scans with private hash caches and a shared, written, irrelevant pool *)
 Theorem C13_interleaving_hash :
@@ -228,15 +261,6 @@ Theorem C13_shared_pool_cache_refuted :
 Proof. exact shared_pool_cache_refuted. Qed.
 
 (* ---- non-vacuity *)
-Definition ex_scanner : cscanner :=
-  mk_scanner [("i0"%string, 0); ("s0"%string, 1); ("b0"%string, 2)] [EInt 5; EBytes [97%N; 98%N]; EBool false]
-             [0; 512; 1000; 0; 0; 1073741824; 0; 1; 0; 0]%N.
-
-Definition ex_history : list cop :=
-  [OClone 0; OLocal 1 (LDefine "i0" (EInt (-7))); OClone 1; OLocal 0 (LSetData 1%N 3%N);
-   OLocal 2 (LSetParams [1; 3; 1; 1; 0; 1073741824; 0; 1; 0; 0]%N); OLocal 1 (LDefine "i0" (EBool true));
-   OScan 1 2%N; OLocal 0 (LDefine "zz" (EInt 1))].
-
 (* hypotheses of the isolation / typing theorems hold of a concrete family; three clones end up different *)
 Example C13_history_example :
   map (fun s => (sc_syms s, sc_params s, sc_mdata s)) (run (probe_model 8%N) [ex_scanner] ex_history)
@@ -270,8 +294,11 @@ Example C13_cache_example :
         [(HMd5, [AInt 0; AInt 3]); (HSha1, [AInt 0; AInt 3]); (HMd5, [AInt 0; AInt 3])].
 Proof. vm_compute. reflexivity. Qed.
 
-(* the hypothesis of the interleaving theorems is satisfiable by a system whose steps do write the pool *)
-Example C13_pool_hypothesis_example :
+(* the premise of the interleaving theorems is satisfiable by a system whose steps do write the pool *)
+Theorem C13_pool_hypothesis_satisfiable : forall dg, pool_content_irrelevant (hstep dg).
+Proof. exact hstep_pool_irrelevant. Qed.
+
+Example C13_pool_written_example :
   fst (hstep std_dg tt 7%nat (Direct [1%N], hcache_empty, [], [])) = 8%nat.
 Proof. vm_compute. reflexivity. Qed.
 
@@ -289,6 +316,8 @@ Print Assumptions C13_inner_constant.
 Print Assumptions C13_compiler_symbols_distinct.
 Print Assumptions C13_scanner_new_wf.
 Print Assumptions C13_scanner_new_slots.
+Print Assumptions C13_set_module_data_one_module.
+Print Assumptions C13_set_scan_params_only_params.
 Print Assumptions C13_define_symbol_typed.
 Print Assumptions C13_define_symbol_unknown.
 Print Assumptions C13_define_symbol_invalid_type.
@@ -304,6 +333,8 @@ Print Assumptions C13_interleaving.
 Print Assumptions C13_interleaving_result.
 Print Assumptions C13_schedule_independent.
 Print Assumptions C13_interleaving_complete.
+Print Assumptions C13_sequential_oracle_is_a_schedule.
 Print Assumptions C13_worker_queues.
 Print Assumptions C13_interleaving_hash.
+Print Assumptions C13_pool_hypothesis_satisfiable.
 Print Assumptions C13_shared_pool_cache_refuted.
